@@ -122,6 +122,10 @@ def check_exact_lifts(ix, rep):
                 ok = 'literal'
             elif len(args) == 1 and isinstance(args[0], ast.BinOp) and isinstance(args[0].op, ast.Mult) and (_is_unit_entry(args[0].left) or _is_unit_entry(args[0].right)):
                 ok = 'scaled to the base unit before the lift'
+            elif len(args) == 1 and isinstance(args[0], ast.Name) and fn is not None and any(
+                    isinstance(st_, ast.Assign) and any(isinstance(t_, ast.Name) and t_.id == args[0].id for t_ in st_.targets) and isinstance(st_.value, ast.Call)
+                    and isinstance(st_.value.func, ast.Attribute) and st_.value.func.attr == 'get_sampling_period' for st_ in ast.walk(fn)):
+                ok = 'the period as returned by get_sampling_period(): already scaled to the base unit'
             elif len(args) == 1 and _mentions_period(args[0]):
                 ok = None
                 why = 'Fraction(%s) lifts the float as it is: a period of 0.1 (s) becomes 3602879701896397/36028797018963968, and then no bound is a whole number of ' \
